@@ -60,7 +60,7 @@ pub fn main(a: &Args) {
     }
     proper.sort();
     let fillers = ["of", "the", "and", "in", "a", "for", "about", "between", "is", "us", "it", "2nd", "3.5",
-        "e.g.", "well-known", "naïve", "café", "世界", "😀", "—", "-", "'tis", "O’Neil", "iOS", "macOS", "IT", "(and)", "\"the\""];
+        "e.g.", "well-known", "naïve", "café", "世界", "😀", "—", "-", "'tis", "O’Neil", "iOS", "macOS", "IT", "(and)", "\"the\"", "ßtraße", "ﬁnal", "ﬂight", "ŉ", "ǰoy", "ǆungla", "ǅ", "ﬃ", "ẞ", "ı", "İ", "ſ", "K", "Å"];
     let mut texts: Vec<String> = Vec::new();
     for _ in 0..a.num("n", 4000) {
         let mut words: Vec<String> = Vec::new();
